@@ -1067,6 +1067,26 @@ def _inject(rng, items, label):
         items[:] = [i for i in items if not (i["k"] == "ext" and i.get("name") == t["name"] and not i["dirs"] and not i["interfaces"])]
     elif label == "specified-directive-redefined":
         items.append({"k": "directive", "name": rng.choice(["skip", "include", "deprecated"]), "desc": None, "args": [], "locations": ["FIELD"]})
+    elif label == "builtin-name-definition":
+        # a definition named like a specified scalar / introspection type (finding C11/7, fix C11-7)
+        name = rng.choice(["String", "Int", "Boolean", "ID", "Float", "__Schema", "__Type", "__TypeKind", "__Field"])
+        kind = rng.choice(["object", "enum", "scalar", "input"])
+        d = {"k": "type", "kind": kind, "name": name, "desc": None, "interfaces": [], "fields": [], "members": [], "values": [],
+             "input_fields": [], "dirs": []}
+        if kind == "object":
+            d["fields"] = [{"name": "a", "desc": None, "args": [], "type": {"k": "named", "n": "Int"}, "dirs": []}]
+        if kind == "enum":
+            d["values"] = [{"name": "A", "desc": None, "dirs": []}]
+        if kind == "input":
+            d["input_fields"] = [{"name": "a", "desc": None, "type": {"k": "named", "n": "Int"}, "default": None, "dirs": []}]
+        items.insert(rng.randint(0, len(items)), d)
+    elif label == "ext-wrong-kind-builtin":
+        name, kinds = rng.choice([("Int", ["object", "enum", "input", "union", "interface"]), ("ID", ["enum", "object"]),
+                                  ("__Type", ["scalar", "enum", "input"]), ("__TypeKind", ["object", "scalar"])])
+        kind = rng.choice(kinds)
+        e = {"k": "ext", "kind": kind, "name": name, "desc": None, "interfaces": [], "fields": [], "members": [], "values": [],
+             "input_fields": [], "dirs": [{"name": "deprecated", "args": []}]}
+        items.append(e)
     elif label == "ext-unknown-target":
         items.append({"k": "ext", "kind": "object", "name": "Nope", "desc": None, "interfaces": [], "members": [], "values": [],
                       "input_fields": [], "dirs": [],
@@ -1087,4 +1107,5 @@ INVALID_LABELS = [
     "ext-new-field-twice", "ext-new-field-one-block", "ext-new-value-twice", "ext-new-value-one-block",
     "ext-new-input-field-twice", "ext-new-input-field-one-block", "ext-new-member-twice", "ext-new-member-one-block",
     "ext-new-interface-twice", "ext-new-interface-one-block",
+    "builtin-name-definition", "ext-wrong-kind-builtin",
 ]
